@@ -354,7 +354,7 @@ func genRowLine(r *h.Rand, odd bool, big bool) genRow {
 	}
 	typ := h.Pick(r, []byte{'f', 'f', 'i', 'i', 'u', 's', 'b'})
 	cond := "-"
-	if (typ == 'f' || typ == 'i') && r.Chance(0.35) {
+	if ((typ == 'f' || typ == 'i') && r.Chance(0.35)) || r.Chance(0.04) {
 		lit := rmock.FloatTok(float64(r.Range(-6, 6)) / 2)
 		if r.Bool() {
 			lit = rmock.IntTok(r.Range(-5, 5))
